@@ -561,6 +561,23 @@ def install(E):
             p = pred[1:]
             return int(a == b if p == "eq" else a != b if p == "ne" else a > b if p == "gt" else
                        a >= b if p == "ge" else a < b if p == "lt" else a <= b)
+        if self.fmode != "fp":
+            # a concrete NaN / infinity against a symbolic (finite, real-domain) value is decided as IEEE does
+            for x, other_is_a in ((a, False), (b, True)):
+                if isinstance(x, float) and (x != x or x in (float("inf"), float("-inf"))):
+                    if pred in ("ord", "uno"):
+                        return int((pred == "uno") == (x != x))
+                    if x != x:
+                        return int(pred[0] == "u")
+                    pp = pred[1:]
+                    big = (x > 0)                  # x = +inf (big) or -inf
+                    if pp == "eq":
+                        return 0
+                    if pp == "ne":
+                        return 1
+                    # compare a ? b with one side infinite and the other finite
+                    a_gt_b = big if not other_is_a else (not big)
+                    return int(a_gt_b if pp in ("gt", "ge") else (not a_gt_b))
         ea, eb = self.fterm(a, ty), self.fterm(b, ty)
         p = pred[1:]
         if self.fmode == "fp":
